@@ -481,6 +481,43 @@ def predict(model_fn, kind, args, rsp_files):
     return model_fn(kind, args, rsp_files)
 
 
+def mask_unreproducible(verdict, tree, before, direct, wrapped, rerun_direct):
+    """A compiler output that is not reproducible between two DIRECT runs (gcc's per-run stamp in coverage objects, .gcno files
+    and in the assembly written by -S; anything else of that kind) cannot be compared byte for byte and must never be reported:
+    whenever the direct and the wrapped run differ in stdout, stderr or the bytes of a file, the direct run is repeated (tree
+    restored, more than a second later) and every artifact in which the two DIRECT runs differ is masked in both results -
+    presence, mode and everything reproducible stay compared."""
+    if direct[0] != wrapped[0]:
+        return direct, wrapped
+    files = [k for k in direct[3] if k in wrapped[3] and direct[3][k] and wrapped[3][k] and direct[3][k][0] != wrapped[3][k][0]]
+    if not files and direct[1] == wrapped[1] and direct[2] == wrapped[2]:
+        return direct, wrapped
+    now = snapshot(tree)
+    restore(tree, before)
+    time.sleep(1.1)           # gcc's stamp has a resolution of one second
+    rc2, o2, e2 = rerun_direct()
+    second = changed(before, snapshot(tree))
+    restore(tree, now)
+    if rc2 != direct[0]:
+        verdict.count('unreproducible-direct.exit-status')
+        return direct, direct                      # nothing about this request can be judged
+    mask = b'<differs between two direct runs>'
+    d_out, w_out, d_err, w_err = direct[1], wrapped[1], direct[2], wrapped[2]
+    if o2 != direct[1]:
+        verdict.count('unreproducible-direct.stdout')
+        d_out = w_out = mask
+    if e2 != direct[2]:
+        verdict.count('unreproducible-direct.stderr')
+        d_err = w_err = mask
+    df, wf = dict(direct[3]), dict(wrapped[3])
+    for k in files:
+        if k in second and second[k] and second[k][0] != direct[3][k][0]:
+            verdict.count('unreproducible-direct.file')
+            df[k] = (mask, df[k][1])
+            wf[k] = (mask, wf[k][1])
+    return (direct[0], d_out, d_err, df), (wrapped[0], w_out, w_err, wf)
+
+
 def run_history(hid, rng, sccache, model_fn, port, verdict, n_ops, known_ids):
     root = ROOT_PREFIX + '%d-%d' % (os.getpid(), hid)
     shutil.rmtree(root, ignore_errors=True)
@@ -592,28 +629,8 @@ def run_history(hid, rng, sccache, model_fn, port, verdict, n_ops, known_ids):
                 verdict.samples.append({'compiler': compiler, 'args': args, 'mode': tag, 'note': note})
 
         def mask_nondeterministic(args, before, direct, wrapped):
-            """files whose bytes differ between two DIRECT runs cannot be compared byte for byte (e.g. the time stamp gcc puts
-            into .gcno / coverage objects): their bytes are masked, presence and mode stay compared"""
-            if direct[0] != wrapped[0]:
-                return direct, wrapped
-            differing = [k for k in direct[3] if k in wrapped[3] and direct[3][k] and wrapped[3][k] and direct[3][k][0] != wrapped[3][k][0]]
-            if not differing:
-                return direct, wrapped
-            now = snapshot(tree)
-            restore(tree, before)
-            time.sleep(1.1)           # gcc's stamp has a resolution of one second
-            rc2, o2, e2 = run([compiler] + args, tree, srv.env(envx))
-            second = changed(before, snapshot(tree))
-            restore(tree, now)
-            nd = [k for k in differing if k in second and second[k] and second[k][0] != direct[3][k][0]]
-            if not nd:
-                return direct, wrapped
-            verdict.count('nondeterministic-direct-output', len(nd))
-            df, wf = dict(direct[3]), dict(wrapped[3])
-            for k in nd:
-                df[k] = (b'<differs between two direct runs>', df[k][1])
-                wf[k] = (b'<differs between two direct runs>', wf[k][1])
-            return (direct[0], direct[1], direct[2], df), (wrapped[0], wrapped[1], wrapped[2], wf)
+            return mask_unreproducible(verdict, tree, before, direct, wrapped,
+                                       lambda: run([compiler] + args, tree, srv.env(envx)))
 
         def do_compile(note, args=None, expect_known=None):
             args = fl.args() if args is None else args
@@ -905,6 +922,9 @@ def _compare(verdict, tag, compiler, args, direct, wrapped, note, known_ids, exp
     return not diffs
 
 
+_SCRATCH_VERDICT = Verdict()      # counters of the fixed scenarios' re-runs are not reported
+
+
 def _both(srv, sccache, compiler, args, tree, envx=None):
     """direct run, restore, wrapped run (same directory, same files)"""
     before = snapshot(tree)
@@ -914,7 +934,7 @@ def _both(srv, sccache, compiler, args, tree, envx=None):
     restore(tree, before)
     rc, o, e = run([sccache, compiler] + args, tree, env)
     w = (rc, o, e, changed(before, snapshot(tree)))
-    return d, w
+    return mask_unreproducible(_SCRATCH_VERDICT, tree, before, d, w, lambda: run([compiler] + args, tree, env))
 
 
 def scenario_header_saved_during_compile(sid, sccache, port, verdict, known_ids, real_compiler, cxx):
